@@ -338,10 +338,13 @@ class Paraxial:
                 z0 = np.ones_like(y1) * z
 
             elif self.optic.field_type == 'angle':
-                y = -np.tan(np.radians(field_y))
+                # the object point is where the chief ray, which makes the
+                # field angle with the axis at the entrance pupil centre,
+                # meets the object plane
                 z = self.optic.surface_group.positions[0]
+                y = -np.tan(np.radians(field_y)) * (EPL - z)
 
-                y0 = y1 + y
+                y0 = np.ones_like(y1) * y
                 z0 = np.ones_like(y1) * z
 
         return y0, z0
